@@ -1,6 +1,6 @@
 (* C29 model-side runner: validates a recorded trace of the hooked thread.rs against
    the extracted LTS of Model/Pool.v (Model/PoolTrace.v: validate).
-   Input line: the 13 scenario fields of harness/src/bin/impl_c29.rs, then `T`, then the
+   Input line: the 14 scenario fields of harness/src/bin/impl_c29.rs, then `T`, then the
    trace `tid:kind:note:a:b:c;...` (or `-`).  Output:
      ok next=<accepted> done=<finished> started=<started> qlen=<queued> live=<thread_count>
         quiescent=<0|1> awret=<awaiters returned> events=<n>
@@ -58,13 +58,13 @@ let () =
     let a = Array.of_list f in
     let nperm = int_of_string a.(0) and linger = int_of_string a.(1) <> 0 in
     let progs = Stdlib.List.map parse_prog (String.split_on_char ',' a.(2)) in
-    let q = int_of_string a.(8) >= 0 in
+    let nq = if int_of_string a.(8) < 0 then 0 else if int_of_string a.(13) = 2 then 2 else 1 in
     let n_aw = int_of_string a.(10) and n_gsd = int_of_string a.(11) in
-    let trace = if Array.length a > 14 && a.(14) <> "-" then
-        Stdlib.List.map parse_event (String.split_on_char ';' a.(14)) else [] in
+    let trace = if Array.length a > 15 && a.(15) <> "-" then
+        Stdlib.List.map parse_event (String.split_on_char ';' a.(15)) else [] in
     let ths = repeat (Pool.WIdle Pool.Perm) nperm
               @ Stdlib.List.map (fun p -> Pool.SIdle p) progs
-              @ (if q then [Pool.QIdle] else [])
+              @ repeat Pool.QIdle nq
               @ repeat Pool.GIdle n_gsd @ repeat Pool.AwIdle n_aw in
     let s0 = Pool.init_state linger ths in
     let (s, bad) = PoolTrace.validate fx s0 trace (nat 0) in
@@ -77,7 +77,7 @@ let () =
         (if PoolTrace.all_quiescent s then 1 else 0) awret (Stdlib.List.length trace)
     | Some idx ->
       let i = int idx in
-      let ev = Stdlib.List.nth (String.split_on_char ';' a.(14)) i in
+      let ev = Stdlib.List.nth (String.split_on_char ';' a.(15)) i in
       let tid = int (Stdlib.List.nth trace i).PoolTrace.etid in
       let pc = (try show_pc (Stdlib.List.nth s.Pool.thr tid) with _ -> "no-such-thread") in
       Printf.sprintf "reject idx=%d ev=%s | model: pc=%s avail=%d qlen=%d psd=%b tcount=%d gsd=%b glock=%b"
